@@ -452,6 +452,18 @@ def r5_equality(ctx):
             got = _abstract_eq(ctx, f, **kwargs)
             ok = got == want or (label == "different shape, both filled" and got in (False, "U"))
             ctx.check(ok, f"{q}#{label.replace(' ', '-').replace(',', '')}", f"{label}: {'array comparison' if want == 'U' else want}" if ok else f"{label}: evaluates to {'an exception' if got == 'RAISE' else got}, expected {'the array comparison' if want == 'U' else want}", where=f, node=f.node)
+    # "hold equal arrays": the comparison of two filled containers is exact, element by element - a
+    # tolerant comparator (allclose / isclose / approx / identical up to attributes) calls different
+    # contents equal and is not even symmetric
+    EXACT = ("array_equal", "equals", "array_equiv")
+    TOLERANT = ("allclose", "isclose", "assert_allclose", "approx", "assert_array_almost_equal", "testing")
+    for q in (f"{AB}.__eq__", f"{PH}.__eq__"):
+        f = ctx.func(q)
+        cmp_calls = [c for c in calls_in(f.node) if {"self._array", "other._array"} <= {dotted(n) for n in ast.walk(c) if isinstance(n, ast.Attribute)}]
+        tol = [c for c in cmp_calls if call_name(c).split(".")[-1] in TOLERANT or any(k.arg in ("rtol", "atol", "rel", "abs", "decimal") for k in c.keywords)]
+        exact = [c for c in cmp_calls if call_name(c).split(".")[-1] in EXACT] + [n for n in ast.walk(f.node) if isinstance(n, ast.Compare) and len(n.ops) == 1 and isinstance(n.ops[0], ast.Eq) and {dotted(n.left), dotted(n.comparators[0])} == {"self._array", "other._array"}]
+        ok = not tol and bool(exact)
+        ctx.check(ok, f"{q}#exact", "filled containers are compared exactly, element by element" if ok else (f"filled containers are compared with `{norm(tol[0])[:60]}`: arrays that differ within a tolerance compare equal (and a == b can differ from b == a)" if tol else "no exact comparison of the two arrays found"), where=f, node=(tol or exact or [f.node])[0])
     # subclasses keep the base __eq__
     for ci in ctx.repo.subclasses(ctx.cls(AB)):
         if "__eq__" in ci.methods:
